@@ -14,6 +14,7 @@ mod rig;
 mod s_dnswire;
 mod s_leasedb;
 mod s_radv;
+mod s_c05;
 
 /// Virtual wall clock: when >= 0, every CLOCK_REALTIME read in this process (Rust std and C
 /// libraries alike) returns this many seconds. The symbol overrides libc's at static link time.
@@ -68,7 +69,13 @@ fn run_case(line: &str) -> String {
         "inreply" => s_dnswire::inreply(args),
         "leasedb" => s_leasedb::run(args),
         "ra" => s_radv::run(args),
-        "icmp6" => s_radv::icmp6(args),
+        "icmp6" => s_c05::icmp6(args),
+        "lldp" => s_c05::lldp(args),
+        "dhcpacc" => s_c05::dhcpacc(args),
+        "toarr" => s_c05::toarr(args),
+        "dnssafe" => s_c05::dnssafe(args),
+        "dhcpsafe" => s_c05::dhcpsafe(args),
+        "ednsacc" => s_c05::ednsacc(args),
         _ => format!("bad-suite:{}", suite),
     }));
     match r {
@@ -81,7 +88,23 @@ fn run_case(line: &str) -> String {
     }
 }
 
+/// every log line of erbium is formatted (and dropped): arguments of log macros are only evaluated when the level is
+/// enabled, and the services run with logging on
+struct FormatOnly;
+impl log::Log for FormatOnly {
+    fn enabled(&self, _: &log::Metadata) -> bool {
+        true
+    }
+    fn log(&self, r: &log::Record) {
+        let _ = format!("{}", r.args());
+    }
+    fn flush(&self) {}
+}
+static LOGGER: FormatOnly = FormatOnly;
+
 fn main() {
+    log::set_logger(&LOGGER).expect("harness: logger");
+    log::set_max_level(log::LevelFilter::Trace);
     std::panic::set_hook(Box::new(|info| {
         // site = file (never a line number) so that keys of known findings stay stable
         let loc = info
